@@ -35,8 +35,9 @@ func init() {
 		id := fmt.Sprintf("C%02d", i)
 		Plans[id] = &PropertyPlan{ID: id, Prefixes: []string{"H_" + id + "_"}, QuickSec: 200, ThoroSec: 1500}
 	}
-	Plans["C01"].QuickSec = 330
-	Plans["C03"].QuickSec = 300
+	Plans["C01"].QuickSec = 420
+	Plans["C03"].QuickSec = 420
+	Plans["C04"].QuickSec = 300
 	Plans["C12"].QuickSec = 300
 	Plans["C15"].QuickSec = 300
 	for _, p := range Plans {
